@@ -643,3 +643,46 @@ func TestReplay_RemovedOutputIsStillDisposed(t *testing.T) {
 		}
 	}
 }
+
+type rbNG struct{ n int }
+type rbNGUser struct{ t *rbNG }
+type rbNGOut struct {
+	Out
+	X *rbNG `name:"x" group:"g"`
+}
+type rbNGIn struct {
+	In
+	X *rbNG `name:"x"`
+}
+
+// collection.registerDescriptor#post[keyed_registration_has_no_group]: a result-object field tagged with both a name and a group was
+// stored as the keyed service {T,"x"} while its graph node and its instance key were {T,"x","g"}: consumers look {T,"x"} up under
+// {T,"x",""}, so a cycle through it escaped Build (resolution then recursed until the stack overflowed) and a singleton registered
+// this way was never found. Rejecting the registration is a correct outcome as well.
+func TestReplay_ResultFieldWithNameAndGroup(t *testing.T) {
+	c := NewCollection()
+	if err := c.AddScoped(func(u *rbNGUser) rbNGOut { return rbNGOut{X: &rbNG{}} }); err == nil {
+		if err := c.AddScoped(func(in rbNGIn) *rbNGUser { return &rbNGUser{t: in.X} }); err != nil {
+			t.Fatal(err)
+		}
+		p, err := c.Build()
+		var ce *CircularDependencyError
+		if !errors.As(err, &ce) {
+			t.Errorf("REPLAY-CONFIRMED collection.registerDescriptor#post[keyed_registration_has_no_group]: {*rbNG,x} -> *rbNGUser -> {*rbNG,x} is a dependency cycle, Build returned %v", err)
+		}
+		if p != nil {
+			p.Close()
+		}
+	}
+	c = NewCollection()
+	if err := c.AddSingleton(func() rbNGOut { return rbNGOut{X: &rbNG{n: 1}} }); err == nil {
+		p, err := c.Build()
+		if err != nil {
+			t.Fatal(err)
+		}
+		if _, err := p.GetKeyed(reflect.TypeOf(&rbNG{}), "x"); err != nil {
+			t.Errorf("REPLAY-CONFIRMED collection.registerDescriptor#post[keyed_registration_has_no_group]: a keyed singleton accepted by the collection cannot be resolved after a successful Build: %v", err)
+		}
+		p.Close()
+	}
+}
